@@ -65,7 +65,7 @@ JUDGES = {"key": judge_key}
 
 def shards(tier, seed):
     T = tier == "thorough"
-    return [{"name": "keys-%d" % i, "count": 12000 if T else 1200, "first": i == 0} for i in range(16)]
+    return [{"name": "keys-%d" % i, "count": 40000 if T else 1200, "first": i == 0} for i in range(16)]
 
 
 def gen(shard, rng, tier):
